@@ -296,6 +296,10 @@ class InTxError(Exception):
     pass
 
 
+class ProbeISE(Exception):
+    pass
+
+
 class Worker:
     def __init__(self):
         self.LAST_STATE = None            # worker.py global
@@ -580,8 +584,9 @@ class Server:
                 reflection_cache=self.reflection_cache, database_config=S['E'],
                 system_config=S['E'], request=req)
             return True, None
-        except S['errors'].InternalServerError:
-            raise
+        except S['errors'].InternalServerError as e:
+            # the compiler cannot even position itself in the transaction
+            raise ProbeISE(f'{text}: InternalServerError: {e}') from None
         except S['errors'].EdgeDBError as e:
             self.probe_error = f'{type(e).__name__}: {e}'
             return False, None
@@ -723,7 +728,13 @@ def run_case(case):
             break
         if model.in_error():
             continue   # nothing but a rollback is accepted: nothing to observe
-        obs = check_observable(srv, model, i)
+        try:
+            obs = check_observable(srv, model, i)
+        except ProbeISE as e:
+            viol.append((f'probe-internal-error:after-{op[0]}',
+                         f'after step {i} `{text}`: compiling the next statement fails with an internal '
+                         f'error although the reference transaction is in a normal state: {e}'))
+            break
         if srv.rolled_back_to_released:
             # known root cause (see known_findings.json): the server side resolved
             # ROLLBACK TO SAVEPOINT to a savepoint that RELEASE had destroyed
